@@ -394,7 +394,9 @@ class QueueWorld(object):
         return outcome[1]
 
     def _run_real_relay(self, kind, behaviour, envelope, attempts, rcpts):
-        return run_real_relay(self.world, kind, behaviour, envelope, attempts, rcpts)
+        if self.cfg.get('persistent_relay') and not hasattr(self, 'relay_cache'):
+            self.relay_cache = {}
+        return run_real_relay(self.world, kind, behaviour, envelope, attempts, rcpts, cache=getattr(self, 'relay_cache', None))
 
     def index_model(self, qid, led):
         """What KF-C03-1 predicts get() to return: the delivered indexes of every marking round, each relative to
@@ -853,7 +855,7 @@ class QueueWorld(object):
                 tuple(sorted(set(v[0] for v in self.violations))), tuple(sorted(set(self.errors))))
 
 
-def run_real_relay(world, kind, behaviour, envelope, attempts, rcpts):
+def run_real_relay(world, kind, behaviour, envelope, attempts, rcpts, cache=None):
     """One attempt of a real relay class in front of a scripted downstream.  -> (set of recipients the downstream truly
     accepted, ('returned', value) | ('raised', exception))."""
     import socket as _socket
@@ -910,17 +912,35 @@ def run_real_relay(world, kind, behaviour, envelope, attempts, rcpts):
         from slimta.relay.http import HttpRelay
         from fakes.vsock import Net
         from fakes.fakehttp import HttpPeer, response
+        if cache is not None and 'http' in cache:
+            # one relay object (pool of one client) for every attempt of this execution: what an attempt leaves behind in the
+            # pool is what the next one finds
+            relay, holder, took = cache['http']
+            holder['behaviour'] = behaviour
+            del took[:]
+            try:
+                outcome = ('returned', relay.attempt(envelope, attempts))
+            except gevent.GreenletExit:
+                raise
+            except BaseException as e:
+                outcome = ('raised', e)
+            return (set(rcpts) if took else set()), outcome
         net = Net(world)
         took = []
+        holder = {'behaviour': behaviour}
 
         def create_connection(addr, timeout=None, source_address=None):
-            if behaviour == 'refused':
+            if holder['behaviour'] == 'refused':
                 raise _socket.error(111, 'Connection refused')
             c, s_ = net.pair(peername=addr)
 
             def responder(req, k):
+                behaviour = holder['behaviour']
                 if behaviour == 'drop':
                     return 'drop'
+                if behaviour == 'late':
+                    gevent.sleep(12.0)          # the origin answers after the relay's timeout (9 s): nothing is reported in time
+                    return response(200, 'OK', [], b'x')
                 status, _, hdr = behaviour.partition('+')
                 hs = []
                 if hdr == 'garbage':
@@ -935,7 +955,9 @@ def run_real_relay(world, kind, behaviour, envelope, attempts, rcpts):
             gevent.spawn(HttpPeer(s_, responder).run)
             return c
         world.patch(shttp, 'socket', types.SimpleNamespace(create_connection=create_connection))
-        relay = HttpRelay('http://mx.test:8025/deliver', ehlo_as='relay.test', timeout=9.0)
+        relay = HttpRelay('http://mx.test:8025/deliver', ehlo_as='relay.test', timeout=9.0, pool_size=1 if cache is not None else None)
+        if cache is not None:
+            cache['http'] = (relay, holder, took)
         try:
             outcome = ('returned', relay.attempt(envelope, attempts))
         except gevent.GreenletExit:
